@@ -65,6 +65,7 @@ struct Cfg {
     noncomputable: bool,
     drop_fields: BTreeSet<String>,
     int_consts: BTreeMap<String, i64>,
+    unreachable: Option<String>,
 }
 
 fn default_methods() -> BTreeMap<String, String> {
@@ -346,9 +347,11 @@ impl<'a> Tr<'a> {
                     Ge(_) => format!("(decide ({} ≥ {}))", l, r),
                     Eq(_) => format!("({} == {})", l, r),
                     Ne(_) => format!("({} != {})", l, r),
-                    BitAnd(_) => format!("(bitand {} {})", l, r),
-                    BitOr(_) => format!("(bitor {} {})", l, r),
-                    BitXor(_) => format!("(bitxor {} {})", l, r),
+                    BitAnd(_) => if self.cfg.int == "Nat" { format!("({} &&& {})", l, r) } else { format!("(bitand {} {})", l, r) },
+                    BitOr(_) => if self.cfg.int == "Nat" { format!("({} ||| {})", l, r) } else { format!("(bitor {} {})", l, r) },
+                    BitXor(_) => if self.cfg.int == "Nat" { format!("({} ^^^ {})", l, r) } else { format!("(bitxor {} {})", l, r) },
+                    Shl(_) => format!("({} <<< {})", l, r),
+                    Shr(_) => format!("({} >>> {})", l, r),
                     _ => return Err(format!("unsupported binary operator in `{}`", key)),
                 })
             }
@@ -396,6 +399,8 @@ impl<'a> Tr<'a> {
                     let elems = m.mac.parse_body_with(parser).map_err(|e| format!("cannot parse `{}!` body: {}", name, e))?;
                     let parts: R<Vec<String>> = elems.iter().map(|x| self.expr(x)).collect();
                     Ok(format!("[{}]", parts?.join(", ")))
+                } else if name == "unreachable" && self.cfg.unreachable.is_some() {
+                    Ok(self.cfg.unreachable.clone().unwrap())
                 } else {
                     Err(format!("unsupported macro `{}!`", name))
                 }
@@ -653,6 +658,14 @@ impl<'a> Tr<'a> {
                 if init.diverge.is_some() {
                     return Err("`let … else` unsupported".into());
                 }
+                if !has_return_expr(&init.expr) {
+                    // no early return inside: translate the initialiser as a value (no duplication of the continuation)
+                    let v = self.expr(&init.expr)?;
+                    let mut out = String::new();
+                    self.bind_pat(&l.pat, &v, &mut out)?;
+                    out.push_str(&self.stmts(rest, k)?);
+                    return Ok(out);
+                }
                 self.expr_k(&init.expr, &|v| {
                     let mut out = String::new();
                     self.bind_pat(&l.pat, &v, &mut out)?;
@@ -670,6 +683,8 @@ impl<'a> Tr<'a> {
                 if name == "debug_assert" || name == "assert" || name == "test_assert" || name == "debug_assert_eq" {
                     // assertions do not change the value computed
                     self.stmts(rest, k)
+                } else if name == "unreachable" && self.cfg.unreachable.is_some() {
+                    Ok(self.cfg.unreachable.clone().unwrap())
                 } else {
                     Err(format!("unsupported macro statement `{}!`", name))
                 }
@@ -1025,6 +1040,7 @@ fn main() {
             }
             cfg.pre = t.get("pre").and_then(|x| x.as_array()).map(|a| a.iter().filter_map(|x| x.as_str().map(|s| s.to_string())).collect()).unwrap_or_default();
             cfg.consts = consts.clone();
+            cfg.unreachable = get_str(t, "unreachable");
             if let Some(Value::Object(m)) = t.get("int_consts") {
                 for (a, b) in m {
                     if let Some(v) = b.as_i64() {
